@@ -201,11 +201,20 @@ func (t *Tokenizer) tokenizeBuffer(buf []byte, last bool) {
 			continue
 		case openObject:
 			if 256 < len(t.mode) {
-				switch t.mode[256] {
+				pending := t.mode[256]
+				switch pending {
 				case 'n':
 					t.handleNum(off)
 				case 't':
 					t.addToken(string(t.tmp))
+				}
+				if depth == 0 && (pending == 'n' || pending == 't') {
+					// The number or token is a complete document, look at the
+					// bracket again after it (in single document mode it is
+					// then an error as it is for the parser).
+					t.mode = valueMap
+					off--
+					break
 				}
 			}
 			if t.exkey {
@@ -310,11 +319,20 @@ func (t *Tokenizer) tokenizeBuffer(buf []byte, last bool) {
 			continue
 		case openArray:
 			if 256 < len(t.mode) {
-				switch t.mode[256] {
+				pending := t.mode[256]
+				switch pending {
 				case 'n':
 					t.handleNum(off)
 				case 't':
 					t.addToken(string(t.tmp))
+				}
+				if depth == 0 && (pending == 'n' || pending == 't') {
+					// The number or token is a complete document, look at the
+					// bracket again after it (in single document mode it is
+					// then an error as it is for the parser).
+					t.mode = valueMap
+					off--
+					break
 				}
 			}
 			if t.exkey {
